@@ -182,6 +182,9 @@ def run_k06(chk, tier):
     details["variant"] = {"http_row": "pinned" if pin_http else "repaired", "wap_row": "pinned" if pin_wap else "repaired"}
 
     def evaluate(name, chkname, cases, raw, imports=IMPORTS06, shard=250):
+        if not cases:
+            details[name] = {"cases": 0, "mismatches": 0}
+            return
         m, e, _ = coq_eval(chk.prop, name, imports, chkname, cases, shard=shard, pre=PRE)
         details[name] = {"cases": len(cases), "mismatches": len(m)}
         for i in m[:5]:
@@ -318,8 +321,8 @@ def run_k06(chk, tier):
     for (proto, ae, ah, d, es), o in zip(dmeta, dres):
         out = o["out"]
         lit_out = "None" if out is None else "(Some %s)" % coq_str(out)   # latin-1 str = bytes
-        cases.append("(((%s, %s), (%s, %s)), %s)" % (PROTO[proto], cq_cfg(ae, ah), cq_entry(d),
-                                                    coq_list(cq_entry(f) for f in es), lit_out))
+        cases.append("(((%s, %s), (%s, (%s : list entry))), %s)" % (PROTO[proto], cq_cfg(ae, ah), cq_entry(d),
+                                                                   coq_list(cq_entry(f) for f in es), lit_out))
         raw.append({"protocol": proto, "abstract_entries": ae, "abstract_headers": ah, "dir": d, "entries": es,
                     "impl_latin1": out, "exc": o["exc"]})
         chk.count(("dir", proto, ae, ah, repr(d), repr(es)), nontrivial=out is not None and len(es) > 0)
@@ -416,6 +419,56 @@ def run_k06(chk, tier):
             return None
         return v[0] if len(v) == 1 else None
 
+    # ---- oracle (implementation level, independent of the model): each protocol's own mechanism is offered ----
+    # The (kind, name, target) views cannot tell a WAP link that lost the WAP prefix (the client would leave the
+    # WML rendering) or a search entry rendered as a plain link (the client could not submit a query) from a
+    # correct one; these two rules can.  They are stated on the real output with the readers of validators.py.
+    import re as _re
+    hits = 0
+    nsearch = {}
+    for i, f in enumerate(cand):
+        simple_local = (f.get("host") is None and f.get("port") is None and f["selector"].startswith("/")
+                        and not f["selector"].startswith("//") and not _re.match(r"/?URL:", f["selector"])
+                        and f.get("name") is not None and f.get("type") is not None and len(f["type"]) == 1
+                        and f["type"] != "i" and not any(ch in f["name"] + f["selector"] for ch in "\t\r\n")
+                        and canonical(f["selector"]) and not f["selector"].startswith("/GEMINI-QUERY"))
+        if not simple_local:
+            continue
+        outs = {proto: wres[i * 6 + j]["out"] for j, proto in enumerate(protos6)}
+        if any(o is None for o in outs.values()):
+            continue
+        chk.count(("mechanism", repr(f)), nontrivial=True)
+        bodies = {k_: v_.encode("latin-1") for k_, v_ in outs.items()}
+        wtext = bodies["wap"].decode("utf-8", "surrogateescape")
+        whrefs = [_html.unescape(h) for h in _re.findall(r'<(?:a|go)\b[^>]*\bhref="([^"]*)"', wtext)]
+        bad = [h for h in whrefs if h.startswith("/") and not h.startswith("/wap/")]
+        if bad or not whrefs:
+            hits += 1
+            if hits <= 3:
+                chk.violation({"what": "a link in a WAP listing does not stay inside the WAP rendering (no waptop prefix)",
+                               "entry": f, "hrefs": whrefs, "wap_listing": wtext[-400:]}, tag="wap-link-without-prefix")
+        if f["type"] == "7":
+            problems = {}
+            rows = V.html_rows(bodies["http"])
+            if not rows or rows[0]["form"] is None:
+                problems["http"] = "no FORM with an ACTION in the row"
+            if not _re.search(r'<input\b[^>]*>.*<go\b[^>]*\bhref="[^"]*"', wtext, _re.S):
+                problems["wap"] = "no input field with a go element"
+            gl = V.gemtext_links(bodies["gemini"])
+            if not gl or not gl[0]["href"].startswith("/GEMINI-QUERY/"):
+                problems["gemini"] = "link does not go through the /GEMINI-QUERY prompt"
+            sl = V.gemtext_links(bodies["spartan"])
+            if not sl or not sl[0]["search"]:
+                problems["spartan"] = "not an input link (=:)"
+            for proto, why in problems.items():
+                hits += 1
+                nsearch[proto] = nsearch.get(proto, 0) + 1
+                if nsearch[proto] <= 2:
+                    chk.violation({"what": "a search entry is not offered with the protocol's own query mechanism: " + why,
+                                   "protocol": proto, "entry": f, "listing_latin1": outs[proto][-400:]},
+                                  tag=f"search-entry-not-submittable:{proto}")
+    details["oracle_hits"] = hits
+
     cases, raw = [], []
     for i, f in enumerate(cand):
         vs = [one_view(proto, wres[i * 6 + j]["out"]) for j, proto in enumerate(protos6)]
@@ -455,7 +508,7 @@ def cq_vitem(v):
 def cq_view(view):
     if view is None:
         return "None"
-    return "(Some %s)" % coq_list(cq_vitem(v) for v in view)
+    return "(Some (%s : list vitem))" % coq_list(cq_vitem(v) for v in view)
 
 
 # ----------------------------------------------------------------------------
@@ -478,6 +531,9 @@ def run_k13(chk, tier):
     mism, errs, details = [], [], {}
 
     def evaluate(name, chkname, cases, raw, shard=12, pre=PRE):
+        if not cases:
+            details[name] = {"cases": 0, "mismatches": 0}
+            return
         m, e, _ = coq_eval(chk.prop, name, IMPORTS13, chkname, cases, shard=shard, pre=pre)
         details[name] = {"cases": len(cases), "mismatches": len(m)}
         for i in m[:5]:
@@ -633,7 +689,7 @@ def run_k13(chk, tier):
             continue
         seen.add(text)
         evs = V.html_skeleton(text.encode("utf-8", "surrogateescape"))
-        cases.append("(%s, %s)" % (coq_str(text), coq_list(cq_event(ev) for ev in evs)))
+        cases.append("(%s, (%s : list event))" % (coq_str(text), coq_list(cq_event(ev) for ev in evs)))
         raw.append({"page_from": label, "page": text[:600], "html_parser_skeleton": repr(evs)[:600]})
         chk.count(("skeleton", text), nontrivial=len(evs) > 0)
     evaluate("k_skeleton", "chk_skeleton", cases, raw, shard=36)
@@ -643,8 +699,8 @@ def run_k13(chk, tier):
         if proto != "http":
             continue
         rows = V.html_rows(body)
-        cases.append("(%s, %s)" % (coq_str(text), coq_list("(%s, (%s, %s))" % (cq_ostr(r_["href"]), coq_str(r_["text"]), cq_ostr(r_["form"]))
-                                                          for r_ in rows)))
+        cases.append("(%s, (%s : list (option str * (str * option str))))" % (
+            coq_str(text), coq_list("(%s, (%s, %s))" % (cq_ostr(r_["href"]), coq_str(r_["text"]), cq_ostr(r_["form"])) for r_ in rows)))
         raw.append({"page": text[:600], "rows": repr(rows)[:600]})
     evaluate("k_html_rows", "chk_html_rows", cases, raw, shard=4)
     details["k_skeleton"]["real_listing_pages"] = len(listing_pages)
